@@ -93,4 +93,9 @@ CHECKS = {
             "JSON / protobuf / base64 encodings of error details are external (round-trip assumed, exercised by e2e stream)",
         ],
     },
+    "C19": {
+        "module": "Vanguard.Props.C19", "namespace": "Vanguard.C19", "streams": ["getpost", "e2e"],
+        "partial": "",
+        "assumptions": E2E_ASSUME + ["url.Values.Encode / url.ParseQuery / base64 are modelled explicitly (Handle.lean) and cross-checked by the streams"],
+    },
 }
